@@ -35,43 +35,74 @@ func c08Range(e *Env) {
 	}
 	fname := w.FuncName(fi.Obj)
 	z := getZone(w)
-	cl := fn.Params[1]
 	n := 0
-	opts := zone.Options{
-		Entry: func(a *zone.Analyzer, d *zone.DBM) { zone.AssumeGE(d, a.IntTerm(cl), 0) },
-		Custom: func(a *zone.Analyzer, d *zone.DBM, ins ssa.Instruction) {
-			ret, ok := ins.(*ssa.Return)
-			if !ok || len(ret.Results) != 3 {
-				return
-			}
-			c, isConst := ret.Results[2].(*ssa.Const)
-			if !isConst || !c.IsNil() {
-				return
-			}
-			n++
-			base := fmt.Sprintf("%s:return-ok#%d", fname, n)
-			pos := w.Pos(ret.Pos())
-			if d == nil {
-				r.Fail(rule, base, pos, "successful return satisfies 0 ≤ startPos ≤ endPos < contentLength", "return lies in a block the analysis did not reach; undecided")
-				return
-			}
-			s, en, clt := a.IntTerm(ret.Results[0]), a.IntTerm(ret.Results[1]), a.IntTerm(cl)
-			type ob struct {
-				k, d string
-				ub   int64
-				lim  int64
-			}
-			for _, o := range []ob{
-				{"start>=0", "0 ≤ startPos", zone.Tub(d, zone.ConstTerm(0), s), 0},
-				{"start<=end", "startPos ≤ endPos", zone.Tub(d, s, en), 0},
-				{"end<len", "endPos ≤ contentLength − 1", zone.Tub(d, en, clt), -1},
-			} {
-				r.Check(o.ub <= o.lim, rule, base+":"+o.k, pos, "successful return satisfies "+o.d,
-					fmt.Sprintf("not established on this return (upper bound of the violated difference: %s): e.g. a suffix range `bytes=-N` on an empty file or `bytes=-0` yields startPos > endPos / endPos = −1, which becomes a negative length and panics when formatted", boundStr(o.ub)))
-			}
-		},
+	// analyse examines the successful returns of f, whose parameter clIdx is the content length;
+	// `return helper(…, contentLength)` is followed into helper (same result shape) so that a
+	// branch moved into its own function is still decided
+	var analyse func(f *ssa.Function, clIdx, depth int)
+	analyse = func(f *ssa.Function, clIdx, depth int) {
+		cl := f.Params[clIdx]
+		name := ssaFuncName(w, f)
+		k := 0
+		opts := zone.Options{
+			Entry: func(a *zone.Analyzer, d *zone.DBM) { zone.AssumeGE(d, a.IntTerm(cl), 0) },
+			Custom: func(a *zone.Analyzer, d *zone.DBM, ins ssa.Instruction) {
+				ret, ok := ins.(*ssa.Return)
+				if !ok || len(ret.Results) != 3 {
+					return
+				}
+				// tail call: all three results are the components of one call
+				if ex0, ok := ret.Results[0].(*ssa.Extract); ok {
+					if call, ok := ex0.Tuple.(*ssa.Call); ok {
+						same := true
+						for i, rv := range ret.Results {
+							ex, ok := rv.(*ssa.Extract)
+							if !ok || ex.Tuple != ex0.Tuple || ex.Index != i {
+								same = false
+							}
+						}
+						callee := call.Call.StaticCallee()
+						if same && callee != nil && callee.Blocks != nil && callee.Pkg == f.Pkg && depth < 2 {
+							for ai, arg := range call.Call.Args {
+								if arg == ssa.Value(cl) && callee.Signature.Results().Len() == 3 {
+									analyse(callee, ai, depth+1)
+									return
+								}
+							}
+						}
+					}
+				}
+				c, isConst := ret.Results[2].(*ssa.Const)
+				if !isConst || !c.IsNil() {
+					return
+				}
+				n++
+				k++
+				base := fmt.Sprintf("%s:return-ok#%d", name, k)
+				pos := w.Pos(ret.Pos())
+				if d == nil {
+					r.Fail(rule, base, pos, "successful return satisfies 0 ≤ startPos ≤ endPos < contentLength", "return lies in a block the analysis did not reach; undecided")
+					return
+				}
+				s, en, clt := a.IntTerm(ret.Results[0]), a.IntTerm(ret.Results[1]), a.IntTerm(cl)
+				type ob struct {
+					k, d string
+					ub   int64
+					lim  int64
+				}
+				for _, o := range []ob{
+					{"start>=0", "0 ≤ startPos", zone.Tub(d, zone.ConstTerm(0), s), 0},
+					{"start<=end", "startPos ≤ endPos", zone.Tub(d, s, en), 0},
+					{"end<len", "endPos ≤ contentLength − 1", zone.Tub(d, en, clt), -1},
+				} {
+					r.Check(o.ub <= o.lim, rule, base+":"+o.k, pos, "successful return satisfies "+o.d,
+						fmt.Sprintf("not established on this return (upper bound of the violated difference: %s): e.g. a suffix range `bytes=-N` on an empty file or `bytes=-0` yields startPos > endPos / endPos = −1, which becomes a negative length and panics when formatted", boundStr(o.ub)))
+				}
+			},
+		}
+		z.prog.Analyze(f, opts)
 	}
-	z.prog.Analyze(fn, opts)
+	analyse(fn, 1, 0)
 	r.Unit("%s: %s — %d successful returns examined", rule, fname, n)
 	r.Floor(rule, n, 3, "returns with a nil error in "+fname)
 	r.Assume("C08.range assumes contentLength ≥ 0 at entry of ParseByteRange (file sizes)")
